@@ -2,6 +2,7 @@ package main
 
 import (
 	"fmt"
+	"golang.org/x/text/unicode/norm"
 	"math/big"
 
 	"github.com/zclconf/go-cty/cty"
@@ -236,6 +237,7 @@ var collTypes = []*gt.T{
 	{K: gt.List, Elem: &gt.T{K: gt.List, Elem: gt.P(gt.Num)}},
 	{K: gt.Set, Elem: &gt.T{K: gt.Tuple, Elems: []*gt.T{gt.P(gt.Str), gt.P(gt.Num)}}},
 	{K: gt.Map, Elem: &gt.T{K: gt.Obj, Attrs: []gt.Attr{{Name: "id", T: gt.P(gt.Num)}}}},
+	{K: gt.Obj, Attrs: []gt.Attr{{Name: "a", T: gt.P(gt.Num)}, {Name: "r\u00e9sum\u00e9", T: gt.P(gt.Str)}, {Name: "\u00e9", T: gt.P(gt.Bool)}}},
 	{K: gt.Set, Elem: &gt.T{K: gt.Set, Elem: gt.P(gt.Bool)}}, {K: gt.Set, Elem: &gt.T{K: gt.List, Elem: gt.P(gt.Str)}},
 	{K: gt.Set, Elem: &gt.T{K: gt.Obj, Attrs: []gt.Attr{{Name: "a", T: gt.P(gt.Bool)}}}}, {K: gt.List, Elem: &gt.T{K: gt.Set, Elem: gt.P(gt.Num)}},
 }
@@ -287,6 +289,16 @@ func c02Collections(c *Ctx, r *rng.R) {
 	case ty.IsMapType():
 		keys = []cty.Value{cty.StringVal("a"), cty.StringVal("b"), cty.StringVal("zz"), cty.StringVal("nope"), cty.StringVal(""), cty.NumberIntVal(0), cty.StringVal("é")}
 	case ty.IsObjectType():
+		// every attribute read back under the decomposed spelling of its name gives the member it was built from
+		for name, want := range v.AsValueMap() {
+			if dn := norm.NFD.String(name); dn != name {
+				var ret cty.Value
+				c.Count("oracle_evals")
+				if p, _ := recovered(func() { ret = v.GetAttr(dn) }); p || !ret.RawEquals(want) {
+					c.Fail("C02/getattr-denormalised-name", fmt.Sprintf("GetAttr(%q) (decomposed spelling of %q): panicked=%v, got %s, the member is %s", dn, name, p, cq.Show(ret), cq.Show(want)), desc)
+				}
+			}
+		}
 		for _, name := range []string{"a", "b", "id", "missing", "é"} {
 			var ret cty.Value
 			p, _ := recovered(func() { ret = v.GetAttr(name) })
